@@ -1,9 +1,132 @@
 /-
-  C19 — serialised systems and ballot files reload to equivalent objects.  (theorems follow)
+  C19 — serialised systems and ballot files reload to equivalent objects.
+  Property theorems only (helper lemmas: VotelibProofs/Lemmas/Persist.lean, Blt.lean).  Namespace VL.C19.
+
+  Part 1: the dict codec of votelib/persist.py (`VL.Persist.serialize` / `deserialize`, the functions the driver runs).
+  Part 2: the BLT writer / parser of votelib/io/blt.py at token level (`VL.Blt.dumpBlt` / `loadBlt`).
+
+  Reading.  `Env` is the interpreter's name resolution (`get_object`).  "Equivalent object" for the codec is equality
+  of values in the algebra `PVal` (class name + constructor parameters for objects); that a class stores each
+  constructor parameter under its own name is per-class reflection and is established by the correspondence, not here.
 -/
-import VotelibModel.Persist
-import VotelibModel.Blt
+import VotelibProofs.Lemmas.Persist
+import VotelibProofs.Lemmas.Blt
 namespace VL.C19
 open VL VL.Persist
+
+/-! ## Part 1 — dict codec -/
+
+/-- **Round trip.**  Every representable value (no bare set, no reserved key `type`/`class`/`callable` carrying an
+    identifier-like string in a str-keyed mapping, frozenset elements and mapping keys hashable and pairwise
+    different, classes and callables resolvable by their dotted name) is written and reloads to itself. -/
+theorem codec_roundtrip (env : Env) (v : PVal) (h : Representable env v = true) :
+    ∃ j, serialize v = .ok j ∧ deserialize env j = .ok v :=
+  rt_val env v h
+
+/-- the same through `to_dict` / `from_dict` for an object (the public entry points) -/
+theorem to_from_dict_roundtrip (env : Env) (cls : String) (ps : List (String × PVal))
+    (h : Representable env (.obj cls ps) = true) :
+    ∃ j, toDict (.obj cls ps) = .ok j ∧ fromDict env j = .ok (.obj cls ps) := by
+  obtain ⟨j, h1, h2⟩ := rt_val env _ h
+  refine ⟨j, h1, ?_⟩
+  have hi : isScopedIdent cls = true := by
+    simp only [Representable, Bool.and_eq_true] at h
+    exact h.1.1.1.1.1
+  cases hf : serF ps with
+  | error e => simp [serialize, hf] at h1
+  | ok fs =>
+    simp [serialize, hf] at h1
+    subst h1
+    simp only [fromDict]
+    simp [hasIdent, List.lookup, hi, h2]
+
+/-- **Unrepresentable configurations are rejected at save.**  A value containing, at any depth, a callable whose
+    dotted name does not resolve back to it (closures, lambdas), a callable object without a name, or an object
+    without any dict spelling is refused by `serialize_value`, with ValueError or (nameless callable) AttributeError. -/
+theorem codec_rejects (v : PVal) (h : Serializable v = false) :
+    ∃ e, serialize v = .error e ∧ (e = Err.valueError ∨ e = Err.other "AttributeError") :=
+  ser_err v h
+
+/-- ... and nothing else is refused. -/
+theorem codec_accepts (v : PVal) (h : Serializable v = true) : ∃ j, serialize v = .ok j :=
+  ser_ok v h
+
+/-- saving succeeds exactly on the `Serializable` values -/
+theorem codec_save_ok_iff (v : PVal) : (∃ j, serialize v = .ok j) ↔ Serializable v = true := by
+  constructor
+  · intro ⟨j, hj⟩
+    cases hs : Serializable v with
+    | true => rfl
+    | false =>
+      obtain ⟨e, he, _⟩ := ser_err v hs
+      rw [he] at hj
+      cases hj
+  · exact ser_ok v
+
+/-- representable values are in particular accepted -/
+theorem representable_serializable (env : Env) (v : PVal) (h : Representable env v = true) : Serializable v = true := by
+  obtain ⟨j, hj, _⟩ := rt_val env v h
+  exact (codec_save_ok_iff v).1 ⟨j, hj⟩
+
+/-! The full statement of the property for the codec would be
+      `∀ env v, (∃ e, serialize v = .error e) ∨ (∃ j, serialize v = .ok j ∧ deserialize env j = .ok v)`
+    ("rejected when saving rather than silently altered").  It is FALSE of the current code: the three witnesses
+    below are written without complaint and come back different / not at all.  `codec_roundtrip` + `codec_rejects`
+    is the part that holds (`codec_save_or_faithful_partial`). -/
+theorem codec_save_or_faithful_partial (env : Env) (v : PVal)
+    (h : Representable env v = true ∨ Serializable v = false) :
+    (∃ e, serialize v = .error e) ∨ (∃ j, serialize v = .ok j ∧ deserialize env j = .ok v) := by
+  cases h with
+  | inl h => exact Or.inr (rt_val env v h)
+  | inr h => obtain ⟨e, he, _⟩ := ser_err v h; exact Or.inl ⟨e, he⟩
+
+def envW : Env := { classes := ["votelib.candidate.Person"], callables := ["builtins.len"], others := [] }
+
+/-- a bare set is written as a list and comes back as a list -/
+theorem codec_set_altered_witness :
+    serialize (.set [.atom (.int 1)]) = .ok (.list [.int 1])
+    ∧ deserialize envW (.list [.int 1]) = .ok (.list [.atom (.int 1)]) := by
+  exact ⟨rfl, by decide +kernel⟩
+
+/-- `Person('x', properties={'type': 'independent'})`: written verbatim, unloadable -/
+theorem codec_reserved_key_witness :
+    let v := PVal.obj "votelib.candidate.Person"
+      [("name", .atom (.str "x")), ("properties", .dict [(.atom (.str "type"), .atom (.str "independent"))])]
+    ∃ j, serialize v = .ok j ∧ deserialize envW j = .error unresolvable := by
+  refine ⟨_, rfl, ?_⟩
+  decide +kernel
+
+/-- `{'callable': 'builtins.len'}` (a plain mapping of strings) comes back as the function `len` -/
+theorem codec_reserved_callable_witness :
+    let v := PVal.dict [(.atom (.str "callable"), .atom (.str "builtins.len"))]
+    ∃ j, serialize v = .ok j ∧ deserialize envW j = .ok (.callable "builtins.len" true) := by
+  refine ⟨_, rfl, ?_⟩
+  decide +kernel
+
+theorem codec_save_or_faithful_witness :
+    ¬ ∀ (env : Env) (v : PVal),
+      (∃ e, serialize v = .error e) ∨ (∃ j, serialize v = .ok j ∧ deserialize env j = .ok v) := by
+  intro h
+  have hs := codec_set_altered_witness
+  cases h envW (.set [.atom (.int 1)]) with
+  | inl h1 => obtain ⟨e, he⟩ := h1; rw [hs.1] at he; cases he
+  | inr h1 =>
+    obtain ⟨j, hj, hd⟩ := h1
+    rw [hs.1] at hj
+    cases hj
+    rw [hs.2] at hd
+    cases hd
+
+/-- non-vacuity: a nested configuration (object holding a Fraction, a Decimal, a tuple, a frozenset, a dict keyed by
+    non-strings, a callable by name, a nested object) meets `Representable` -/
+def exEnv : Env := { classes := ["votelib.evaluate.core.Conditioned", "votelib.evaluate.threshold.RelativeThreshold"],
+                     callables := ["votelib.component.quota.droop"], others := [] }
+def exVal : PVal := .obj "votelib.evaluate.core.Conditioned"
+  [("eliminator", .obj "votelib.evaluate.threshold.RelativeThreshold" [("threshold", .dec "0.05"), ("accept_equal", .atom (.bool true))]),
+   ("evaluator", .dict [(.atom (.int 1), .frac (7/5)), (.tuple [.atom (.str "a"), .atom .none], .callable "votelib.component.quota.droop" true)]),
+   ("subsetter", .fset [.atom (.str "x"), .atom (.int 3)]),
+   ("depth", .tuple [.atom (.int 1), .list [.atom (.float "0.5")], .dict [(.atom (.str "k"), .atom (.str "type"))]])]
+example : Representable exEnv exVal = true := by decide +kernel
+example : Serializable (.list [.callable "votelib.component.divisor._modified_divisor" false]) = false := by decide +kernel
 
 end VL.C19
